@@ -656,6 +656,9 @@ pub fn run_c09(cfg: &Cfg) -> Report {
 // ------------------------------------------------------------------------------------ C10
 
 fn res_case(cx: &mut CaseCtx, r: &Res) -> bool {
+    // inside the domain C10 states, where acceptance is part of the property
+    let r = &in_domain(r.clone());
+    cx.must_accept = true;
     cx.eval();
     cx.obs();
     let mut b = Builder::new(false);
@@ -704,6 +707,8 @@ fn res_case(cx: &mut CaseCtx, r: &Res) -> bool {
 }
 
 fn template_case(cx: &mut CaseCtx, rs: &[Res]) -> bool {
+    let rs = &rs.iter().cloned().map(in_domain).collect::<Vec<Res>>()[..];
+    cx.must_accept = true;
     cx.eval();
     cx.obs();
     let t = Term::ResourceTemplate(rs.to_vec());
